@@ -79,6 +79,9 @@ type c15case struct {
 	LoginAt int      `json:"login_at"`
 }
 
+// loginLast: the login is delivered after the whole stream (all its events are held, then released in one go).
+var loginLast bool
+
 // runStream delivers: login, binding LOGIN record, then the stream.
 // fault kinds: "", "malformed:<line>@i", "write@k", "badpid", "badlogin:<kind>@i"
 func runStream(t *testing.T, evs []auditgen.Group, stream []srec, insertAt int, insertLine string, failAt int, badLogin string) (msg string) {
@@ -91,7 +94,9 @@ func runStream(t *testing.T, evs []auditgen.Group, stream []srec, insertAt int, 
 			}
 		}
 		lg := mkLogin(bindPID, "1")
-		r.offerLogin(lg)
+		if !loginLast {
+			r.offerLogin(lg)
+		}
 		r.offerLine(bindLines("7") + "\n")
 		delivered := make([]int, len(evs))
 		expectStop := ""
@@ -148,6 +153,11 @@ func runStream(t *testing.T, evs []auditgen.Group, stream []srec, insertAt int, 
 			delivered[stream[i].ev]++
 		}
 		vsleep(3 * time.Second)
+		if loginLast {
+			// everything so far is held: the login arrives now and the events are released through the same writer
+			r.offerLogin(lg)
+			vsleep(time.Second)
+		}
 		evsOut, bad := r.w.events()
 		if len(bad) > 0 {
 			fail("a write is not one JSON event line: %q", bad[0])
@@ -318,6 +328,16 @@ func runC15(t *testing.T, run *mc.Run) int {
 				if m != "" {
 					viol("write-failure", stream, fmt.Sprintf("output write #%d fails with %q", k, kind), m)
 				}
+				if ki == 0 || run.Thorough() {
+					// the same failure while the held events of the session are being released by a late login
+					n++
+					writeErr, loginLast = kind, true
+					m := runStream(t, evs, stream, -1, "", k, "")
+					writeErr, loginLast = errInjected, false
+					if m != "" {
+						viol("write-failure-while-releasing-held-events", stream, fmt.Sprintf("events held, login last, output write #%d fails with %q", k, kind), m)
+					}
+				}
 			}
 		}
 		for pos := 0; pos <= len(stream); pos++ {
@@ -393,7 +413,7 @@ func runC15(t *testing.T, run *mc.Run) int {
 	})
 	run.Note("observation, not judged (the statement speaks of non-empty lines): a blank record delivered as \"\\n\": %s", short(blank, 160))
 	cov := mc.Coverage{Level: "model_checking", States: len(shapes), Transitions: n, Traces: n, Evaluations: n, Distinct: interleaved, Exhaustive: complete, Samples: samples,
-		Rule:  fmt.Sprintf("every merge of the record sequences of %d kernel events (5-record SYSCALL group, simple record, 4-record SYSCALL group ending in EOE) that keeps each event's internal order, x {no fault (every merge); for every merge (thorough) / every 25th merge (quick): each of 10 malformed line shapes at every position; output write failing at the k-th write for every k, with the plain error and with errors that also match context.Canceled / DeadlineExceeded / ErrClosedPipe / EOF / EPIPE; 3 kinds of invalid login at every position}, delivered line by line to the real Auditd.Read in a synctest bubble ('does not return' = durably blocked). states = distinct stream shapes; distinct_nontrivial = shapes in which records of different kernel events interleave", nev),
+		Rule:  fmt.Sprintf("every merge of the record sequences of %d kernel events (5-record SYSCALL group, simple record, 4-record SYSCALL group ending in EOE) that keeps each event's internal order, x {no fault (every merge); for every merge (thorough) / every 25th merge (quick): each of 10 malformed line shapes at every position; output write failing at the k-th write for every k (login first, and login last so that the failure hits the release of held events), with the plain error and with errors that also match context.Canceled / DeadlineExceeded / ErrClosedPipe / EOF / EPIPE; 3 kinds of invalid login at every position}, delivered line by line to the real Auditd.Read in a synctest bubble ('does not return' = durably blocked). states = distinct stream shapes; distinct_nontrivial = shapes in which records of different kernel events interleave", nev),
 		Extra: map[string]any{"kernel_events": nev, "stream_shapes": len(shapes), "malformed_shapes": len(malformed)}}
 	cov.Assumptions = []string{"testing/synctest durable-blocking semantics and virtual clock", "events are observed through the real tracker with the session bound, i.e. at the output writer"}
 	return run.Finish(cov)
